@@ -54,6 +54,9 @@ CHECKS = {
  "C09": ("fault_enumeration", "offline checkers over the recorded event log of the client boundary (recording Session wrapper, logging Conn wrapper, scripted broker that logs an acknowledgement before writing it): SavePacket-before-send order, acknowledgement-before-future-success order, session content at rest, retransmission with DUP on resume; resolution poll of every future after the terminal call; goroutine-profile stuck detector around Close/Disconnect; accessor panic trap",
          "all API sequences of length <=3 (sampled length 3 in quick, plus sampled length 4 and 2-8 concurrent callers in thorough) x 6 acknowledgement behaviours x 4 CONNACK behaviours x 4 terminal events x resume; for a deterministic subset every single client-side connection fault position (incl. the CONNECT) and every Session method failing at its 1st-3rd call",
          "an acknowledgement of another kind carrying the live packet id is accepted as that id's acknowledgement (the client keys futures by id only); futures are polled with a retried 25 ms Wait because Wait selects randomly between a ready future and an expired timer", "2-C09"),
+ "C10": ("fault_enumeration", "receiver model driven by what the client received (event log of the client boundary) compared with application callback invocations and acknowledgements written; QoS 0 marker fence through the client's single processor; completion phase retransmitting PUBREL",
+         "all scripted-broker scripts of length <=3 (quick) / <=4 plus sampled length 5 with 3 ids (thorough) over {PUBLISH q2 (dup), PUBLISH q1, PUBLISH q0, PUBREL, drop+resume} x callback plans {nil, error at 1st/2nd/3rd invocation} x both callback modes x every single client-side send fault (each acknowledgement, before/after)",
+         "exactly-once is asserted in the default mode only; rejected deliveries are not counted; what the client received is taken from its connection's receive log (same goroutine as processing)", "2-C10"),
 }
 NOT_APPLICABLE = {}
 def main():
